@@ -124,6 +124,9 @@ fn check_case(ctx: &mut Ctx, index: u64, rng: &mut Rng, cfg: &Cfg, names: &[&str
                       "library": match &o.result { Some(Ok(_)) => "authenticated".to_string(), Some(Err(e)) => format!("error: {e}"), None => "pending".into() },
                       "library_replies": o.replies.iter().map(|r| String::from_utf8_lossy(r).to_string()).collect::<Vec<_>>(),
                       "model_replies": model.steps.iter().map(|s| format!("{:?}", s.1)).collect::<Vec<_>>(), "model_authenticated": model.authenticated});
+    if index % 499 == 0 || (names.len() >= 3 && index % 61 == 0) {
+        ctx.sample(desc.clone());
+    }
     let lib_auth = matches!(o.result, Some(Ok(_)));
     ctx.count(if lib_auth { "class:lib-authenticated" } else { "class:lib-not-authenticated" }, 1);
     ctx.count(if model.authenticated { "class:model-authenticated" } else { "class:model-not-authenticated" }, 1);
@@ -278,6 +281,5 @@ pub fn run(ctx: &mut Ctx) {
                 }
             });
         }
-        ctx.sample(json!({"example": "\\0AUTH EXTERNAL 31303030\\r\\nNEGOTIATE_UNIX_FD\\r\\nBEGIN\\r\\n", "templates": t.iter().map(|x| x.0).collect::<Vec<_>>()}));
     }
 }
